@@ -364,7 +364,7 @@ class SR:
         # of the two arguments is the zero polynomial (decided by the solver without hypotheses) the same variable is reused (sound: only identical
         # polynomials are merged; everything else is left to the functional-consistency axioms)
         fp = None
-        if not (is_const(self.n) and is_const(self.d)):
+        if not (is_const(self.n) and is_const(self.d)) and len(lst) <= 256:
             fp = c.fingerprint(self)
             for a, v in lst:
                 fq = c.fp_cache.get((a.n.get_id(), a.d.get_id()))
@@ -384,10 +384,12 @@ class SR:
                 lst.append((self, v))
                 return v
         v = SR(z3.Real('%s!%d' % (name, next(c.fresh))))
-        for a, w in lst:   # functional consistency
-            c.axioms.append(z3.Implies(a.n * self.d == self.n * a.d, w.n == v.n))
+        big = len(lst) > 64       # very many calls (quadratures): pairwise axioms are dropped (weaker hypotheses, still sound)
+        if not big:
+            for a, w in lst:   # functional consistency
+                c.axioms.append(z3.Implies(a.n * self.d == self.n * a.d, w.n == v.n))
         lst.append((self, v))
-        AX[name](c, self, v, lst)
+        AX[name](c, self, v, [lst[-1]] if big else lst)
         return v
 
     def exp(self):
@@ -404,6 +406,10 @@ class SR:
 
     def sqrt(self):
         return self._uf('sqrt')
+
+    def sinc(self):
+        """numpy's normalised sinc: sin(pi x)/(pi x), 1 at x = 0 (defined everywhere: no side condition)"""
+        return self._uf('sinc')
 
     # -- comparisons
     def _cmp(self, o, op):
@@ -566,8 +572,8 @@ def _ax_sin(c, a, v, lst):
     c.axioms.append(v.n <= 1)
     c.axioms.append(v.n >= -1)
     c.axioms.append(z3.Implies(t == 0, v.n == 0))
-    c.axioms.append(z3.Implies(t > 0, v.n < t))
-    c.axioms.append(z3.Implies(t < 0, v.n > t))
+    c.axioms.append(z3.Implies(t > 0, z3.And(v.n < t, v.n > -t)))        # |sin t| < |t|
+    c.axioms.append(z3.Implies(t < 0, z3.And(v.n > t, v.n < -t)))
     for b, w in lst[:-1]:
         c.axioms.append(z3.Implies(a.n * b.d == -b.n * a.d, v.n == -w.n))   # odd
 
@@ -586,7 +592,13 @@ def _ax_sqrt(c, a, v, lst):
     c.axioms.append(v.n * v.n * a.d == a.n)
 
 
-AX = {'exp': _ax_exp, 'log': _ax_log, 'sin': _ax_sin, 'cos': _ax_cos, 'sqrt': _ax_sqrt}
+def _ax_sinc(c, a, v, lst):
+    c.axioms.append(v.n <= 1)
+    c.axioms.append(v.n >= -1)
+    c.axioms.append(z3.Implies(a.term() == 0, v.n == 1))
+
+
+AX = {'sinc': _ax_sinc, 'exp': _ax_exp, 'log': _ax_log, 'sin': _ax_sin, 'cos': _ax_cos, 'sqrt': _ax_sqrt}
 
 
 def _exact_sqrt(val):
@@ -599,7 +611,7 @@ def _exact_sqrt(val):
     return None
 
 
-EXACT = {'exp': lambda v: Fraction(1) if v == 0 else None,
+EXACT = {'sinc': lambda v: Fraction(1) if v == 0 else None, 'exp': lambda v: Fraction(1) if v == 0 else None,
          'log': lambda v: Fraction(0) if v == 1 else None,
          'sin': lambda v: Fraction(0) if v == 0 else None,
          'cos': lambda v: Fraction(1) if v == 0 else None,
